@@ -28,8 +28,8 @@ const (
 // committee index) that distinguishes them. gen selects the table generation (bumped by a reorg).
 type vBeacon struct {
 	Client
-	present [2][vEpochs][vVals][2]bool
-	tag     [2][vEpochs][vVals][2]byte
+	present [2][vEpochs][vVals][1]bool
+	tag     [2][vEpochs][vVals][1]byte
 	gen     int
 	calls   int
 	lastEp  eth2p0.Epoch
@@ -53,7 +53,7 @@ func (b *vBeacon) ProposerDuties(_ context.Context, opts *eth2api.ProposerDuties
 	var out []*eth2v1.ProposerDuty
 	e := int(opts.Epoch - vE0)
 	for v := 0; v < vVals; v++ {
-		for j := 0; j < 2; j++ {
+		for j := 0; j < 1; j++ {
 			if e >= 0 && e < vEpochs && b.present[b.gen][e][v][j] && b.wants(opts.Indices, v) {
 				out = append(out, &eth2v1.ProposerDuty{ValidatorIndex: eth2p0.ValidatorIndex(v), Slot: eth2p0.Slot(b.tag[b.gen][e][v][j])})
 			}
@@ -68,7 +68,7 @@ func (b *vBeacon) AttesterDuties(_ context.Context, opts *eth2api.AttesterDuties
 	var out []*eth2v1.AttesterDuty
 	e := int(opts.Epoch - vE0)
 	for v := 0; v < vVals; v++ {
-		for j := 0; j < 2; j++ {
+		for j := 0; j < 1; j++ {
 			if e >= 0 && e < vEpochs && b.present[b.gen][e][v][j] && b.wants(opts.Indices, v) {
 				out = append(out, &eth2v1.AttesterDuty{ValidatorIndex: eth2p0.ValidatorIndex(v), Slot: eth2p0.Slot(b.tag[b.gen][e][v][j])})
 			}
@@ -83,7 +83,7 @@ func (b *vBeacon) SyncCommitteeDuties(_ context.Context, opts *eth2api.SyncCommi
 	var out []*eth2v1.SyncCommitteeDuty
 	e := int(opts.Epoch - vE0)
 	for v := 0; v < vVals; v++ {
-		for j := 0; j < 2; j++ {
+		for j := 0; j < 1; j++ {
 			if e >= 0 && e < vEpochs && b.present[b.gen][e][v][j] && b.wants(opts.Indices, v) {
 				out = append(out, &eth2v1.SyncCommitteeDuty{ValidatorIndex: eth2p0.ValidatorIndex(v),
 					ValidatorSyncCommitteeIndices: []eth2p0.CommitteeIndex{eth2p0.CommitteeIndex(b.tag[b.gen][e][v][j])}})
@@ -91,6 +91,14 @@ func (b *vBeacon) SyncCommitteeDuties(_ context.Context, opts *eth2api.SyncCommi
 		}
 	}
 	return &eth2api.Response[[]*eth2v1.SyncCommitteeDuty]{Data: out}, nil
+}
+
+// vLenDigit returns the i-th base-4 digit of lens.
+func vLenDigit(lens, i int) int {
+	for ; i > 0; i-- {
+		lens /= 4
+	}
+	return lens % 4
 }
 
 // vRes is the normalised form of an answer: (validator, tag) pairs.
@@ -147,7 +155,7 @@ func VerifC20Cache() {
 	for g := 0; g < 2; g++ {
 		for e := 0; e < vEpochs; e++ {
 			for v := 0; v < vVals; v++ {
-				for j := 0; j < 2; j++ {
+				for j := 0; j < 1; j++ {
 					b.present[g][e][v][j] = vrt.Bool(vrt.N("present", g, e, v, j))
 					b.tag[g][e][v][j] = vrt.Byte(vrt.N("tag", g, e, v, j))
 					if g == 1 && e == 0 {
@@ -155,8 +163,6 @@ func VerifC20Cache() {
 						vrt.Assume(b.present[1][0][v][j] == b.present[0][0][v][j] && b.tag[1][0][v][j] == b.tag[0][0][v][j])
 					}
 				}
-				// the two duties of one validator in an epoch carry different tags
-				vrt.Assume(b.tag[g][e][v][0] != b.tag[g][e][v][1])
 			}
 		}
 	}
@@ -167,18 +173,27 @@ func VerifC20Cache() {
 		ops /= 3
 		switch op {
 		case 0:
+			// epoch and the number of requested indices are concrete per case (digits of "eps" / "lens"); which
+			// validators are requested is symbolic (distinct indices; length 0 = all active validators)
 			ep := eth2p0.Epoch(vE0)
 			eIdx := 0
-			if vrt.Bool(vrt.N("later", i)) {
+			if (vrt.Param("eps")>>i)&1 == 1 {
 				ep, eIdx = vE0+1, 1
 			}
-			// requested subset (duplicate free by construction); empty subset = all active validators
+			n := vLenDigit(vrt.Param("lens"), i)
 			var want [vVals]bool
-			var idx []eth2p0.ValidatorIndex
-			for v := 0; v < vVals; v++ {
-				want[v] = vrt.Bool(vrt.N("want", i, v))
-				if want[v] {
-					idx = append(idx, eth2p0.ValidatorIndex(v))
+			idx := make([]eth2p0.ValidatorIndex, n)
+			for q := 0; q < n; q++ {
+				x := vrt.Byte(vrt.N("idx", i, q))
+				vrt.Assume(x < vVals)
+				for p := 0; p < q; p++ {
+					vrt.Assume(idx[p] != eth2p0.ValidatorIndex(x))
+				}
+				idx[q] = eth2p0.ValidatorIndex(x)
+				for v := 0; v < vVals; v++ {
+					if int(x) == v {
+						want[v] = true
+					}
 				}
 			}
 			none := !want[0] && !want[1] && !want[2]
@@ -188,7 +203,7 @@ func VerifC20Cache() {
 			// oracle: the beacon node's own answer for this request
 			expected := 0
 			for v := 0; v < vVals; v++ {
-				for j := 0; j < 2; j++ {
+				for j := 0; j < 1; j++ {
 					if (want[v] || none) && b.present[b.gen][eIdx][v][j] {
 						expected++
 						found := false
